@@ -4,6 +4,7 @@ CONSTANTS
     Kinds = {"T", "C", "R", "L", "N", "H"}
     MaxLen = 4
     ReadSizes = {1, 2, 3, 4}
+    WindowUnits = 2
     Short = FALSE
 INVARIANT Inv_PassThrough
 INVARIANT Inv_Plain
